@@ -154,7 +154,10 @@ def _term_ids(e):
         seen.add(i)
         if z3.is_app(x):
             if x.num_args() == 0:
-                pass
+                # fresh constants (results of calls, havocked values) connect facts; the function's
+                # parameters do not (they would pull in the whole path condition)
+                if x.decl().kind() == z3.Z3_OP_UNINTERPRETED and '!' in x.decl().name():
+                    out.add(i)
             else:
                 kind = x.decl().kind()
                 if kind in (z3.Z3_OP_SELECT, z3.Z3_OP_UNINTERPRETED):
@@ -277,8 +280,9 @@ class State:
         want = set(_term_ids(extra))
         if not want:
             want = set(_const_ids(extra))
-        chosen = []
-        rest = list(self._qf)
+        # facts over the parameters alone (allocation bounds, tags) are few and always relevant
+        chosen = [c for c, ids in self._qf if not ids]
+        rest = [(c, ids) for c, ids in self._qf if ids]
         changed = True
         while changed:
             changed = False
@@ -305,6 +309,9 @@ class State:
         self.feas_time = getattr(self, 'feas_time', 0.0) + _t.time() - t0
         if r == z3.unknown:
             self.feas_unknown = getattr(self, 'feas_unknown', 0) + 1
+            import os as _os
+            if _os.environ.get('PYVC_TRACE_FEAS'):
+                print('   feasibility unknown after %.2fs with %d conjuncts: %s' % (_t.time() - t0, len(chosen), str(extra)[:120].replace('\n', ' ')), flush=True)
         self._model = None
         return r != z3.unsat
 
@@ -454,6 +461,81 @@ class State:
         self.obligations.append(Obligation(fn, clause, kind, list(self.pc), goal,
                                            tuple(self.decisions[:self.pos]), where))
 
+    # -- reading through stores -------------------------------------------------------------
+    def alias(self, a, b):
+        """True: a == b on this path; False: a != b; None: unknown.  Uses a resource limit, not a
+        wall-clock timeout, so that re-executing a path prefix builds the same terms."""
+        e = z3.simplify(a == b)
+        if z3.is_true(e):
+            return True
+        if z3.is_false(e):
+            return False
+        if not hasattr(self, '_alias'):
+            self._alias = {}
+        k = e.get_id()
+        if k in self._alias:
+            return self._alias[k]
+        self._learn()
+        kn = self.known(e)
+        if kn is None:
+            kn = self._decide(e)
+        self._alias[k] = kn
+        self._alias_keep = getattr(self, '_alias_keep', [])
+        self._alias_keep.append(e)
+        return kn
+
+    def _decide(self, e):
+        if not hasattr(self, '_qf'):
+            self._qf = []
+            self._qf_n = 0
+        while self._qf_n < len(self.pc):
+            c = self.pc[self._qf_n]
+            if not _has_quant(c):
+                self._qf.append((c, _term_ids(c)))
+            self._qf_n += 1
+        want = set(_term_ids(e))
+        chosen = [c for c, ids in self._qf if not ids]
+        rest = [(c, ids) for c, ids in self._qf if ids]
+        changed = True
+        while changed:
+            changed = False
+            keep = []
+            for c, ids in rest:
+                if ids & want:
+                    chosen.append(c)
+                    want |= ids
+                    changed = True
+                else:
+                    keep.append((c, ids))
+            rest = keep
+        out = None
+        for val, f in ((True, z3.Not(e)), (False, e)):
+            s = z3.Solver()
+            s.set('rlimit', 400000)
+            for a in self.all_axioms():
+                if not _has_quant(a):
+                    s.add(a)
+            s.add(chosen)
+            s.add(f)
+            self.solver_calls += 1
+            if s.check() == z3.unsat:
+                out = val
+                break
+        return out
+
+    def sel(self, arr, idx):
+        """Select(arr, idx) with the store chain resolved wherever aliasing is decided"""
+        while z3.is_app(arr) and arr.decl().kind() == z3.Z3_OP_STORE:
+            a, j, v = arr.arg(0), arr.arg(1), arr.arg(2)
+            r = self.alias(idx, j)
+            if r is True:
+                return v
+            if r is False:
+                arr = a
+                continue
+            break
+        return z3.Select(arr, idx)
+
     # -- heap primitives ---------------------------------------------------------
     def new_ref(self):
         r = self.alloc
@@ -461,7 +543,7 @@ class State:
         return r
 
     def cls_of(self, ref):
-        return z3.Select(self.heap.get('cls'), ref)
+        return self.sel(self.heap.get('cls'), ref)
 
     def set_cls(self, ref, cid):
         self.heap.set('cls', z3.Store(self.heap.get('cls'), ref, cid))
@@ -492,23 +574,23 @@ class State:
         return Val.o(r)
 
     def items(self, ref, heap=None):
-        return z3.Select((heap or self.heap).get('list'), ref)
+        return self.sel((heap or self.heap).get('list'), ref)
 
     def set_items(self, ref, seq):
         self.heap.set('list', z3.Store(self.heap.get('list'), ref, seq))
 
     def dkeys(self, ref, heap=None):
-        return z3.Select((heap or self.heap).get('dkeys'), ref)
+        return self.sel((heap or self.heap).get('dkeys'), ref)
 
     def dmap(self, ref, heap=None):
-        return z3.Select((heap or self.heap).get('dmap'), ref)
+        return self.sel((heap or self.heap).get('dmap'), ref)
 
     def set_dict(self, ref, keys, amap):
         self.heap.set('dkeys', z3.Store(self.heap.get('dkeys'), ref, keys))
         self.heap.set('dmap', z3.Store(self.heap.get('dmap'), ref, amap))
 
     def raw_attr(self, ref, name, heap=None):
-        return z3.Select((heap or self.heap).get(('attr', name)), ref)
+        return self.sel((heap or self.heap).get(('attr', name)), ref)
 
     def class_attr(self, cid, name, heap=None):
         return z3.Select((heap or self.heap).get(('cattr', name)), cid)
